@@ -4,7 +4,7 @@
 From Coq Require Import List ZArith Bool.
 From Coq.Strings Require Import Byte.
 Import ListNotations.
-From SV Require Import Text G_attr C18_Model C18_Heap C18_Lemmas C18_HeapLemmas.
+From SV Require Import Text G_attr C18_Model C18_Heap C18_Lemmas C18_Good C18_HeapLemmas C18_HeapOps C18_Refine.
 
 (* --- Attr/Meta as a mapping: get after set (the stored value is the recursively converted one) --- *)
 Theorem C18_get_set_same : forall g kvs k v, is_attr g = true ->
@@ -92,6 +92,39 @@ Example C18_witness_reserved : reserved (bs "items"%bs) = true /\ reserved (bs "
   reserved (bs "name"%bs) = false /\ wf_lit (TMap TgDict [(bs "items"%bs, TInt 1)]) = false.
 Proof. exact (conj eq_refl (conj eq_refl (conj eq_refl eq_refl))). Qed.
 
+(* --- the mapping laws at ANY path of the object, not only at its root --- *)
+Theorem C18_attr_is_key_path : forall p T g kvs k v, tnav p T = Some (TMap g kvs) -> is_attr g = true ->
+  apply_op (OGetAttr p k) T = match apply_op (OGetItem p k) T with inr EKey => inr EAttr | x => x end /\
+  apply_op (OSetAttr p k v) T = apply_op (OSetItem p k v) T /\
+  apply_op (ODelAttr p k) T = apply_op (ODelItem p k) T.
+Proof. exact attr_is_key_path. Qed.
+Print Assumptions C18_attr_is_key_path.
+
+Theorem C18_get_set_path : forall p T g kvs k v, key_path p = true -> tnav p T = Some (TMap g kvs) -> is_attr g = true ->
+  exists T', apply_op (OSetItem p k v) T = inl (T', VNone) /\
+             tnav p T' = Some (TMap g (aset k (conv v) kvs)) /\
+             apply_op (OGetItem p k) T' = inl (T', enc (conv v)) /\ apply_op (OGetAttr p k) T' = inl (T', enc (conv v)).
+Proof. exact get_set_path. Qed.
+Print Assumptions C18_get_set_path.
+
+(* --- EVERY modelled operation, at every path, keeps: unique keys at every mapping, and "an Attr/Meta never directly
+       holds a plain dict" (recursive conversion through item/attribute assignment, update, setdefault, ...) --- *)
+Theorem C18_apply_op_good : forall o t t' r, wf_op o = true -> good t = true -> apply_op o t = inl (t', r) ->
+  good t' = true /\ same_kind t t'.
+Proof. exact apply_op_good. Qed.
+Print Assumptions C18_apply_op_good.
+
+(* --- after ANY history of modelled operations on x = Meta(d): the invariant holds and x == dict(x) == x --- *)
+Theorem C18_reachable_good : forall d kvs ops okd acc, d = TMap TgDict kvs -> wf_lit d = true -> forallb wf_op ops = true ->
+  let x := snd (run_ops ops (attr_init TgMeta kvs) okd acc) in
+  good x = true /\ py_eq x (to_dict x) = true /\ py_eq (to_dict x) x = true.
+Proof. exact reachable_good. Qed.
+Print Assumptions C18_reachable_good.
+
+Theorem C18_good_closed : forall t, good t = true -> closed t = true.
+Proof. exact good_closed. Qed.
+Print Assumptions C18_good_closed.
+
 (* ================= heap model (lib/C18_Heap.v): aliasing, copy(), frame ================= *)
 
 (* frame: a write to a cell that x cannot reach changes nothing observable through x *)
@@ -108,7 +141,7 @@ Print Assumptions C18_frame_writes.
 (* building a value allocates fresh cells only, referring to fresh cells only, and reads back as the value *)
 Theorem C18_build_fresh : forall t h h' v, build t h = (h', v) ->
   exists ex, h' = h ++ ex /\ vref_ge (length h) v /\ vref_lt (length h') v /\ cells_ge (length h) ex
-             /\ exists n, snap n h' v = Some t.
+             /\ cells_lt (length h') ex /\ exists n, snap n h' v = Some t.
 Proof. exact build_spec. Qed.
 Print Assumptions C18_build_fresh.
 
@@ -140,6 +173,99 @@ Theorem C18_heap_ok_preserved : forall h,
 Proof. exact (fun h OK => conj (fun ex => heap_ok_app h ex OK) (fun l c => heap_ok_write h l c OK)). Qed.
 Print Assumptions C18_heap_ok_preserved.
 
+(* ---- the invariants composed through EVERY modelled operation (hop_step), no hypothesis left to the reader ---- *)
+
+(* every state reachable from the empty heap by ANY list of modelled operations has no dangling references *)
+Theorem C18_reachable_ok : forall ops, let s := exec ops init_state in
+  inv all_true all_true s /\ heap_ok (fst s) /\ forall k, vref_lt (length (fst s)) (reg s k).
+Proof. exact reachable_ok. Qed.
+Print Assumptions C18_reachable_ok.
+
+(* one modelled operation whose variables all belong to the R-side keeps the two-colour separation invariant, never
+   touches a cell of the other colour and leaves the variables of the other side alone *)
+Theorem C18_hop_step_ok : forall side R s o s' r, fresh_true side (length (fst s)) -> inv side R s -> regs_in R o = true ->
+  hop_step o s = inl (s', r) -> step_ok side R s s'.
+Proof. exact hop_step_ok. Qed.
+Print Assumptions C18_hop_step_ok.
+
+Theorem C18_exec_frame : forall side R ops s, fresh_true side (length (fst s)) -> inv side R s ->
+  forallb (regs_in R) ops = true ->
+  inv side R (exec ops s) /\ fresh_true side (length (fst (exec ops s))) /\
+  forall k n, R k = false -> snap n (fst (exec ops s)) (reg (exec ops s) k) = snap n (fst s) (reg s k).
+Proof. exact exec_frame. Qed.
+Print Assumptions C18_exec_frame.
+
+(* exec is what the harness runs *)
+Theorem C18_exec_is_run : forall ops s okd acc, snd (run_hops ops s okd acc) = exec ops s.
+Proof. exact run_hops_exec. Qed.
+Print Assumptions C18_exec_is_run.
+
+(* COPY ISOLATION over arbitrary histories of modelled operations: after ANY prefix, r_i = r_j.copy() gives an equal
+   snapshot; then any history working on r_i only leaves every other variable unchanged, and any history not mentioning
+   r_i leaves r_i unchanged (nested edits, deletions, list appends, assignments of own sub-objects, further copies and
+   re-wraps included) *)
+Theorem C18_copy_isolation_ops : forall pre i j s1 r, i < nregs ->
+  hop_step (HCopy i j) (exec pre init_state) = inl (s1, r) ->
+  let s0 := exec pre init_state in
+  (exists t m, snap (fuel_of (fst s0)) (fst s0) (reg s0 j) = Some t /\ snap m (fst s1) (reg s1 i) = Some t /\
+               (i <> j -> snap (fuel_of (fst s0)) (fst s1) (reg s1 j) = Some t)) /\
+  (forall ops, forallb (regs_in (only i)) ops = true -> forall k n, k <> i ->
+     snap n (fst (exec ops s1)) (reg (exec ops s1) k) = snap n (fst s1) (reg s1 k)) /\
+  (forall ops, forallb (regs_in (except i)) ops = true -> forall n,
+     snap n (fst (exec ops s1)) (reg (exec ops s1) i) = snap n (fst s1) (reg s1 i)).
+Proof. exact copy_isolation_ops. Qed.
+Print Assumptions C18_copy_isolation_ops.
+
+(* ---- not_inplace_pure ---- *)
+
+(* value level: the reading operations of Attr/Meta (getitem, getattr, get, len, keys, in, ==) at any path return the
+   object unchanged, and so does a whole history of them *)
+Theorem C18_read_not_inplace : forall o t t' r, is_read o = true -> apply_op o t = inl (t', r) -> t' = t.
+Proof. exact read_not_inplace. Qed.
+Print Assumptions C18_read_not_inplace.
+
+Theorem C18_run_reads : forall ops t okd acc, forallb is_read ops = true -> snd (run_ops ops t okd acc) = t.
+Proof. exact run_reads. Qed.
+Print Assumptions C18_run_reads.
+
+(* heap level: Meta(d), x.copy(), Meta(x) and "is" are not in-place: they only allocate, every variable except the
+   destination is unchanged, and every deep read of every operand gives what it gave before *)
+Theorem C18_hop_not_inplace : forall o s s' r dest, pure_hop o = Some dest -> hop_step o s = inl (s', r) ->
+  (exists ex, fst s' = fst s ++ ex) /\
+  (forall k, Some k <> dest -> reg s' k = reg s k) /\
+  (forall k n t, Some k <> dest -> snap n (fst s) (reg s k) = Some t -> snap n (fst s') (reg s' k) = Some t).
+Proof. exact hop_not_inplace. Qed.
+Print Assumptions C18_hop_not_inplace.
+
+(* ---- refinement between the two models: for an object without internal sharing, the snapshot after the heap operation is
+        the value-level operation applied to the snapshot before (item assignment of a literal incl. the recursive
+        conversion, item deletion, list append; target reached by a path of keys) ---- *)
+Theorem C18_refine_setitem : forall s i p k t s' r n T, key_path p = true ->
+  snap n (fst s) (reg s i) = Some T -> NoDup (reach_list n (fst s) (reg s i)) ->
+  hop_step (HSetLit i p k t) s = inl (s', r) ->
+  exists T' m, apply_op (OSetItem p k t) T = inl (T', VNone) /\ snap m (fst s') (reg s' i) = Some T'.
+Proof. exact refine_setlit. Qed.
+Print Assumptions C18_refine_setitem.
+
+Theorem C18_refine_delitem : forall s i p k s' r n T, key_path p = true ->
+  snap n (fst s) (reg s i) = Some T -> NoDup (reach_list n (fst s) (reg s i)) ->
+  hop_step (HDel i p k) s = inl (s', r) ->
+  exists T' m, apply_op (ODelItem p k) T = inl (T', VNone) /\ snap m (fst s') (reg s' i) = Some T'.
+Proof. exact refine_del. Qed.
+Print Assumptions C18_refine_delitem.
+
+Theorem C18_refine_append : forall s i p t s' r n T, key_path p = true ->
+  snap n (fst s) (reg s i) = Some T -> NoDup (reach_list n (fst s) (reg s i)) ->
+  hop_step (HAppendLit i p t) s = inl (s', r) ->
+  exists T' m, apply_op (OListAppend p t) T = inl (T', VNone) /\ snap m (fst s') (reg s' i) = Some T'.
+Proof. exact refine_append. Qed.
+Print Assumptions C18_refine_append.
+
+(* the model's boolean domain test tree_shaped gives the NoDup hypothesis *)
+Theorem C18_tree_shaped_nodup : forall n h v, tree_shaped n h v = true -> NoDup (reach_list n h v).
+Proof. exact (fun n h v => nodup_nat_NoDup (reach_list n h v)). Qed.
+Print Assumptions C18_tree_shaped_nodup.
+
 (* non-vacuity: a concrete heap satisfies the hypotheses and copy() succeeds on it; a concrete program shows that
    copy() separates (r0.a is not r1.a, editing r1.a.b leaves r0) while Meta(r0) shares nested objects (r0.a is r2.a) *)
 Example C18_witness_heap : heap_ok demo_heap /\ vref_lt (length demo_heap) (HRef 3) /\
@@ -153,3 +279,36 @@ Example C18_witness_program :
   snap 9 (fst s) (reg s 0) = Some (TMap TgMeta [(bs "a"%bs, TMap TgAttr [(bs "b"%bs, TInt 1)]); (bs "l"%bs, TList [TMap TgDict []])]) /\
   snap 9 (fst s) (reg s 1) = Some (TMap TgMeta [(bs "a"%bs, TMap TgAttr [(bs "b"%bs, TInt 2)]); (bs "l"%bs, TList [TMap TgDict []])]).
 Proof. exact demo_run. Qed.
+
+(* non-vacuity of C18_copy_isolation_ops: after a prefix with a re-wrap, the copy succeeds; a history with a nested edit,
+   a deletion and an assignment of an own sub-object works on the copy only, changes it, and leaves the original alone *)
+Example C18_witness_copy_ops :
+  let pre := [HNew 0 (TMap TgDict [(bs "a"%bs, TMap TgDict [(bs "b"%bs, TInt 1)]); (bs "l"%bs, TList [TMap TgDict []])]); HWrap 2 0 []] in
+  let ops := [HSetLit 1 [PK (bs "a"%bs)] (bs "b"%bs) (TInt 2); HDel 1 [] (bs "l"%bs); HSetRef 1 [] (bs "z"%bs) 1 [PK (bs "a"%bs)]] in
+  exists s1, hop_step (HCopy 1 0) (exec pre init_state) = inl (s1, VNone) /\ 1 < nregs /\
+             forallb (regs_in (only 1)) ops = true /\
+             snap 9 (fst (exec ops s1)) (reg (exec ops s1) 1) <> snap 9 (fst s1) (reg s1 1) /\
+             snap 9 (fst (exec ops s1)) (reg (exec ops s1) 0) = snap 9 (fst s1) (reg s1 0).
+Proof. exact demo_copy_ops. Qed.
+
+(* non-vacuity of the refinement theorems: a tree-shaped object on which all three operations succeed *)
+Example C18_witness_refine :
+  let s := exec [HNew 0 (TMap TgDict [(bs "a"%bs, TMap TgDict [(bs "b"%bs, TInt 1)]); (bs "l"%bs, TList [TMap TgDict []])])] init_state in
+  tree_shaped 5 (fst s) (reg s 0) = true /\
+  (exists T, snap 5 (fst s) (reg s 0) = Some T) /\
+  (exists s', hop_step (HSetLit 0 [PK (bs "a"%bs)] (bs "c"%bs) (TMap TgDict [(bs "d"%bs, TInt 2)])) s = inl (s', VNone)) /\
+  (exists s', hop_step (HDel 0 [PK (bs "a"%bs)] (bs "b"%bs)) s = inl (s', VNone)) /\
+  (exists s', hop_step (HAppendLit 0 [PK (bs "l"%bs)] (TInt 7)) s = inl (s', VNone)).
+Proof. exact demo_refine. Qed.
+
+(* non-vacuity of C18_reachable_good / C18_apply_op_good: a history with nested set, update, setdefault, delattr, popitem *)
+Example C18_witness_good :
+  let d := TMap TgDict [(bs "a"%bs, TMap TgDict [(bs "b"%bs, TInt 1)]); (bs "l"%bs, TList [TMap TgDict []])] in
+  let ops := [OSetItem [PK (bs "a"%bs)] (bs "c"%bs) (TMap TgDict [(bs "d"%bs, TMap TgDict [])]);
+              OUpdate [] (TMap TgDict [(bs "q"%bs, TMap TgDict [(bs "r"%bs, TInt 2)])]);
+              OSetDefault [PK (bs "q"%bs)] (bs "s"%bs) (TMap TgDict []); ODelAttr [PK (bs "a"%bs)] (bs "b"%bs); OPopItem []] in
+  wf_lit d = true /\ forallb wf_op ops = true /\
+  snd (run_ops ops (attr_init TgMeta [(bs "a"%bs, TMap TgDict [(bs "b"%bs, TInt 1)]); (bs "l"%bs, TList [TMap TgDict []])]) true [])
+  = TMap TgMeta [(bs "l"%bs, TList [TMap TgDict []]);
+                 (bs "q"%bs, TMap TgAttr [(bs "r"%bs, TInt 2); (bs "s"%bs, TMap TgAttr [])])].
+Proof. exact demo_good. Qed.
